@@ -58,18 +58,19 @@ theorem skel_read_row_impl_ok :
       ["decl reader", "call skip_comments", "while[RANGE_FOR] {vv = read}", "call next_line"]) ∨
     (rowImplResyncs = true ∧ skel_read_row_impl =
       ["decl reader", "decl resync",
-       "if[TRY] {call skip_comments; while[RANGE_FOR] {vv = read}; call next_line} else " ++
-         "{if {call discard_line}; throw rethrow}"] ∧
-      skel_discard_line = ["bufidx =", "if {return}", "call is.clear", "call is.ignore"]) := by decide
+       "if[TRY] {call skip_comments; while[RANGE_FOR] {vv = read}; call next_line} else {if {call discard_line}; throw rethrow}"] ∧
+      skel_discard_line = ["bufidx =", "if {return}", "call is.clear", "call is.ignore"]) := by
+  first | exact Or.inl ⟨rfl, rfl⟩ | exact Or.inr ⟨rfl, rfl, rfl⟩
 theorem skel_read_row_std_vector_ok :
     (rowVecResyncs = false ∧ skel_read_row_std_vector =
       ["decl reader", "decl v", "call skip_comments", "while[done] {call push_back,read}", "call next_line",
        "return"]) ∨
     (rowVecResyncs = true ∧ skel_read_row_std_vector =
       ["decl reader", "decl v", "decl resync",
-       "if[TRY] {call skip_comments; while[done] {call push_back,read}; call next_line} else " ++
-         "{if {call discard_line}; throw rethrow}", "return"] ∧
-      skel_discard_line = ["bufidx =", "if {return}", "call is.clear", "call is.ignore"]) := by decide
+       "if[TRY] {call skip_comments; while[done] {call push_back,read}; call next_line} else {if {call discard_line}; throw rethrow}",
+       "return"] ∧
+      skel_discard_line = ["bufidx =", "if {return}", "call is.clear", "call is.ignore"]) := by
+  first | exact Or.inl ⟨rfl, rfl⟩ | exact Or.inr ⟨rfl, rfl, rfl⟩
 
 /-- **Which csv.tpp this is**: the row functions have no error handler (open finding
     `csv-error-leaves-stream-mid-line`).  This statement, `read_row_frame_current` and
@@ -364,6 +365,22 @@ theorem row_overlong_rejected (hP : PBound P) (tok rest : List Char) (hR : R = t
   exact ⟨by rw [readRowImpl, readRowImplG_fst, h1], by rw [readRowStdVector, readRowStdVectorG_fst, h2]⟩
 
 end rows
+
+/-- **Too few fields, empty line**: at least one field is requested and the line (after any comment
+    lines) is empty, or the file ends: "extraction failed" (nothing loaded yet) or "conversion failed"
+    (after a comment line). -/
+theorem empty_line_too_few_rejected {V : Type} (P : List Char → Option (V × Nat)) (hP0 : P [] = none)
+    (sep : Char) (cs : List (List Char)) (hcs : ∀ b ∈ cs, NoNL b) (tail : List Char) (ht : TailOK tail)
+    (n : Nat) (hn : 0 < n) :
+    ∃ e, (e = .ext ∨ e = .conv) ∧
+      (readRowImpl P n sep ⟨commentText cs ++ tail, false, false⟩).1 = .error e := by
+  obtain ⟨k', hk⟩ := skipComments_emptyline cs hcs tail ht
+  obtain ⟨e, r', is', he, h1, _⟩ := read_emptyline P hP0 sep k' tail ht
+  obtain ⟨m, rfl⟩ : ∃ m, n = m + 1 := ⟨n - 1, by omega⟩
+  refine ⟨e, he, ?_⟩
+  rw [readRowImpl, readRowImplG_fst]
+  simp [readRowCore, hk, readFields_succ_err P m _ _ sep e r' is' h1]
+
 /-! ### No partial consumption: a row call consumes exactly one line, or fails inside it
 
   For *every* content `L` of the line — well-formed or malformed in any way — after any comment lines
@@ -674,5 +691,56 @@ example :
     (readRowImpl digitsP 50 ';' ⟨(List.replicate 40 ['7', ';']).flatten ++ ['7', ','] ++
         (List.replicate 8 ['7', ';']).flatten ++ ['7', '\n', '5'], false, false⟩).1 = .error .sep := by
   decide +kernel
+
+/-! #### direct instances of the remaining theorems (all hypotheses instantiated) -/
+
+example (t : List Char) :=
+  read_token_any_offset digitsP ',' ['1', '2', ',', '7'] ('\n' :: t) ['1', '2'] ['7'] 0 12 (by simp)
+    (noNL_of_all _ (by decide)) (Or.inr ⟨t, rfl⟩) rfl (by simp) (tok_12_7 (['1', '2'], 12) (by simp))
+example (t : List Char) :=
+  read_fields_tokens digitsP ',' [(['1', '2'], 12), (['7'], 7)] ('\n' :: t) (Or.inr ⟨t, rfl⟩) len_12_7 tok_12_7
+    ['1', '2', ',', '7'] 0 (by simp) (noNL_of_all _ (by decide)) rfl
+example (t : List Char) :=
+  wrong_separator_rejected digitsP ',' ';' ['7', ';', '5'] ('\n' :: t) ['7'] ['5'] 0 7 (by simp)
+    (noNL_of_all _ (by decide)) (Or.inr ⟨t, rfl⟩) rfl (by decide) (by simp)
+    (by intro X; simp [readSingle, digitsP, singleSkipPlus, singleFails, Char.isDigit])
+example (t : List Char) :=
+  unparsable_rejected digitsP ',' ['x', ',', '5'] ('\n' :: t) 0 (by simp) (noNL_of_all _ (by decide))
+    (Or.inr ⟨t, rfl⟩) (by decide)
+example (t : List Char) :=
+  overlong_token_rejected digitsP digitsP_bound ',' (List.replicate 65 '1') ('\n' :: t) (List.replicate 65 '1') []
+    0 (by simp) (noNL_of_all _ (by decide)) (Or.inr ⟨t, rfl⟩) (by simp) (by simp) (by decide)
+example (t : List Char) :=
+  next_line_exact ['1', ',', 'x'] ('\n' :: t) (noNL_of_all _ (by decide)) (Or.inr ⟨t, rfl⟩) _ _ _
+    (canon_start _ _)
+example (t : List Char) :=
+  read_any_text digitsP digitsP_bound ',' ['1', ',', 'x'] ('\n' :: t) (noNL_of_all _ (by decide))
+    (Or.inr ⟨t, rfl⟩) _ _ _ (canon_start _ _)
+example (t : List Char) :=
+  print_then_read digitsP ',' [(['1', '2'], 12), (['7'], 7)] (fun r _ => if r = 0 then ['1', '2'] else ['7']) t
+    (by decide) len_12_7 tok_12_7 (noNL_of_all _ (by decide)) '1' ['2', ',', '7'] rfl (by decide)
+example (t : List Char) (n : Nat) :=
+  rows_leave_rest_resync digitsP digitsP_bound digitsP_nil ',' [['c']]
+    (by intro b hb; simp at hb; subst hb; exact noNL_of_all _ (by decide)) ['1', ',', 'x'] t
+    (noNL_of_all _ (by decide)) (dataLine_cons _ _ (by decide)) n
+example (n : Nat) := failed_stream_untouched digitsP n ',' ⟨['1', '\n'], false, true⟩ rfl
+example (t : List Char) := empty_line_too_few_rejected digitsP digitsP_nil ',' [['c']]
+    (by intro b hb; simp at hb; subst hb; exact noNL_of_all _ (by decide)) ('\n' :: t) (Or.inr ⟨t, rfl⟩) 2 (by simp)
+example (t : List Char) :=
+  read_vector_frame_resync digitsP digitsP_bound ',' [['c']]
+    (by intro b hb; simp at hb; subst hb; exact noNL_of_all _ (by decide)) ['1', ',', 'x'] ('\n' :: t)
+    (noNL_of_all _ (by decide)) (dataLine_cons _ _ (by decide)) (Or.inr ⟨t, rfl⟩)
+example (t : List Char) (n : Nat) :=
+  read_row_frame_plain digitsP digitsP_bound ',' [['c']]
+    (by intro b hb; simp at hb; subst hb; exact noNL_of_all _ (by decide)) ['1', ',', 'x'] ('\n' :: t)
+    (noNL_of_all _ (by decide)) (dataLine_cons _ _ (by decide)) (Or.inr ⟨t, rfl⟩) digitsP_nil n
+example (t : List Char) :=
+  read_vector_frame_plain digitsP digitsP_bound ',' [['c']]
+    (by intro b hb; simp at hb; subst hb; exact noNL_of_all _ (by decide)) ['1', ',', 'x'] ('\n' :: t)
+    (noNL_of_all _ (by decide)) (dataLine_cons _ _ (by decide)) (Or.inr ⟨t, rfl⟩)
+example (t : List Char) := read_row_empty digitsP ',' [['c']]
+    (by intro b hb; simp at hb; subst hb; exact noNL_of_all _ (by decide)) t
+example := read_row_empty_eof digitsP ',' [['c']]
+    (by intro b hb; simp at hb; subst hb; exact noNL_of_all _ (by decide))
 
 end Alpaqa.Props.C17
